@@ -16,20 +16,31 @@ type c06 struct{ base }
 
 func init() {
 	core.Register(c06{base{id: "C06", level: "exploration", quickB: 16, thoroughB: 32,
-		rule: "histories over {Parse ok/err/0/2 statements, Bind known/unknown/with an unsupported format code, Describe S/P, Execute (ok, fail before/after rows, panic, unknown portal), Close S/P, Flush, Sync, simple Query, unknown-type, oversized} with names from {\"\",a,b}; every history is followed by Sync + probe Query, or (every fifth length) by Terminate in whatever state it left. quick: exhaustive over all histories of length <= 4 from a 14-symbol alphabet + random length <= 12; thorough: random length <= 30. Each history runs in lock-step (reply must be complete when the server blocks for input = promptness) and again pipelined in one segment (bytes and callback trace must be identical). Non-trivial = contains an error or an unknown name or a message while skipping; distinct = distinct message-kind/outcome sequence.",
+		rule:        "histories over {Parse ok/err/0/2 statements, Bind known/unknown/with an unsupported format code, Describe S/P, Execute (ok, fail before/after rows, panic, unknown portal), Close S/P, Flush, Sync, simple Query, unknown-type, oversized} with names from {\"\",a,b}; every history is followed by Sync + probe Query, or (every fifth length) by Terminate in whatever state it left. quick: exhaustive over all histories of length <= 4 from a 14-symbol alphabet + random length <= 12; thorough: random length <= 30. Each history runs in lock-step (reply must be complete when the server blocks for input = promptness) and again pipelined in one segment (bytes and callback trace must be identical). Non-trivial = contains an error or an unknown name or a message while skipping; distinct = distinct message-kind/outcome sequence.",
 		need:        []string{"messages_stepped", "extended_errors", "messages_discarded_while_skipping", "pipelined_runs"},
 		assumptions: append([]string{"after an unknown-type or oversized non-Query message inside a batch the reply (nothing / E / E Z) and the skipping state are left open; whether portals survive Sync, whether Close(statement) cascades to its portals and whether a simple Query destroys the unnamed statement are left open (all accepted consistently)"}, commonAssumptions...)}})
 }
 
 func (c06) alphabet(pfx string) []func(i int) xMsg {
 	return []func(i int) xMsg{
-		func(i int) xMsg { id := fmt.Sprintf("%s.%d", pfx, i); return xMsg{K: "parse", Name: "a", Query: "P " + id, Prog: xProg(id, 4)} },
-		func(i int) xMsg { id := fmt.Sprintf("%s.%d", pfx, i); return xMsg{K: "parse", Name: "a", Query: "P " + id, Prog: xProg(id, 0)} },
-		func(i int) xMsg { id := fmt.Sprintf("%s.%d", pfx, i); return xMsg{K: "parse", Name: "a", Query: "P " + id, Prog: xProg(id, 8)} },
+		func(i int) xMsg {
+			id := fmt.Sprintf("%s.%d", pfx, i)
+			return xMsg{K: "parse", Name: "a", Query: "P " + id, Prog: xProg(id, 4)}
+		},
+		func(i int) xMsg {
+			id := fmt.Sprintf("%s.%d", pfx, i)
+			return xMsg{K: "parse", Name: "a", Query: "P " + id, Prog: xProg(id, 0)}
+		},
+		func(i int) xMsg {
+			id := fmt.Sprintf("%s.%d", pfx, i)
+			return xMsg{K: "parse", Name: "a", Query: "P " + id, Prog: xProg(id, 8)}
+		},
 		func(i int) xMsg {
 			return xMsg{K: "bind", Portal: "a", Name: "a", Params: [][]byte{[]byte(fmt.Sprintf("p%d", i)), []byte("7")}, BindID: i}
 		},
-		func(i int) xMsg { return xMsg{K: "bind", Portal: "a", Name: "zz", Params: [][]byte{[]byte("x"), []byte("1")}, BindID: i} },
+		func(i int) xMsg {
+			return xMsg{K: "bind", Portal: "a", Name: "zz", Params: [][]byte{[]byte("x"), []byte("1")}, BindID: i}
+		},
 		func(i int) xMsg {
 			return xMsg{K: "bind", Portal: "a", Name: "a", Params: [][]byte{[]byte("x"), []byte("1")}, RFmts: []int16{int16(2 + i)}, BindID: i}
 		},
@@ -40,7 +51,10 @@ func (c06) alphabet(pfx string) []func(i int) xMsg {
 		func(i int) xMsg { return xMsg{K: "closeS", Name: "a"} },
 		func(i int) xMsg { return xMsg{K: "flush"} },
 		func(i int) xMsg { return xMsg{K: "sync"} },
-		func(i int) xMsg { id := fmt.Sprintf("%s.%d", pfx, i); return xMsg{K: "query", Query: "Q " + id, Prog: xProg(id, 3)} },
+		func(i int) xMsg {
+			id := fmt.Sprintf("%s.%d", pfx, i)
+			return xMsg{K: "query", Query: "Q " + id, Prog: xProg(id, 3)}
+		},
 	}
 }
 
@@ -85,11 +99,17 @@ func randHistory(rng *core.Rng, pfx string, maxLen int, withOpen bool) []xMsg {
 				// to the parser and the statement it yields is bound, described and executed as usual
 				q, emptyUsed = core.Pick(rng, []string{"", " ", "\n\t "}), true
 			}
+			if q != "" && strings.TrimSpace(q) != "" && rng.Intn(6) == 0 {
+				q += " /* " + strings.Repeat("large statement text ", 200+rng.Intn(250)) + "*/" // a Parse of 4-9 KiB
+			}
 			h = append(h, xMsg{K: "parse", Name: name, Query: q, Prog: xProg(id, kind), OIDs: oids})
 		case k < 38:
 			bind++
 			m := xMsg{K: "bind", Portal: portal, Name: name, BindID: bind,
 				Params: [][]byte{[]byte(fmt.Sprintf("%s-b%d", pfx, bind)), []byte(fmt.Sprint(rng.Intn(1000)))}}
+			if rng.Intn(6) == 0 {
+				m.Params[0] = append(m.Params[0], bytes.Repeat([]byte(" large parameter"), 250+rng.Intn(300))...) // a Bind of 4-9 KiB
+			}
 			switch rng.Intn(4) {
 			case 1:
 				m.RFmts = []int16{0}
